@@ -473,6 +473,41 @@ def dict_del(E, d, key):
     E.hwrite(dn, z3.ArraySort(ks, B), d.z, z3.Store(dom, k.z, z3.BoolVal(False)), "dict-del")
 
 
+def dict_update(E, d, other):
+    """d.update(other): keys of `other` win. `other` is a dict (array Map combinators, no quantifiers) or a record literal (one store per key)."""
+    st = E.st
+    ot = E.full_ty(other)
+    if isinstance(ot, tuple) and ot[0] == "rec":
+        for k_, _ in ot[1]:
+            key = k_.lstrip("?")
+            if k_.startswith("?"):
+                raise OutOfSubset("update from a record with optional keys")
+            dict_set(E, d, vstr(key), E.fld_read(other, key))
+        return NONE
+    if not (isinstance(ot, tuple) and ot[0] == "dict"):
+        if ot == "none":
+            raise RaiseEx("TypeError", None, None)
+        raise OutOfSubset(f"dict.update({ot})")
+    if E.full_ty(d)[1] is None:
+        E.refine(d, ("dict", ot[1], ot[2]))
+    kty, vty = dict_types(E, d)
+    k2, v2 = dict_types(E, other)
+    if sort_of(kty) != sort_of(k2) or stag(vty) != stag(v2):
+        raise OutOfSubset("dict.update between differently typed dicts")
+    dn, vn, ks, vs = dict_names(kty, vty)
+    D, Vv = E.hread(dn, z3.ArraySort(ks, B), d.z), E.hread(vn, z3.ArraySort(ks, vs), d.z)
+    D2, V2 = E.hread(dn, z3.ArraySort(ks, B), other.z), E.hread(vn, z3.ArraySort(ks, vs), other.z)
+    or_decl = z3.Or(z3.Bool("a!"), z3.Bool("b!")).decl()
+    ite_decl = z3.If(z3.Bool("a!"), z3.Const("x!", vs), z3.Const("y!", vs)).decl()
+    n, n2 = E.len_of(d), E.len_of(other)
+    nn = fresh("dlen")
+    st.pc.append(z3.And(nn >= n, nn >= n2, nn <= n + n2))
+    E.hwrite(dn, z3.ArraySort(ks, B), d.z, z3.Map(or_decl, D, D2), "dict-update")
+    E.hwrite(vn, z3.ArraySort(ks, vs), d.z, z3.Map(ite_decl, D2, V2, Vv), "dict-update")
+    E.hwrite("len", I, d.z, nn, "dict-update")
+    return NONE
+
+
 def any_item(E, base, key):
     f = z3.Function("any_item", I, I, I)
     k = key.z if key.ty != "bool" else z3.If(key.z, 1, 0)
@@ -1363,6 +1398,9 @@ def external_call(E, name, ext, e, recv=None, args=None, kwargs=None):
         raise OutOfSubset(f"external {name} in spec")
     if st.pure and not ext.get("pure"):
         raise NeedFork()
+    for k_, ty_ in ext.get("arg_types", {}).items():
+        if k_ < len(args) and isinstance(args[k_].ty, tuple) and None in args[k_].ty:
+            E.refine(args[k_], parse_type(ty_))  # e.g. an empty {} literal handed to a callee that fills it
     env = {f"a{k}": v for k, v in enumerate(args)}
     env.update({f"kw_{k}": v for k, v in kwargs.items()})
     if recv is not None:
@@ -1370,6 +1408,21 @@ def external_call(E, name, ext, e, recv=None, args=None, kwargs=None):
     env.update({k: v for k, v in st.vars.items() if k in ("self",)})
     for j, r in enumerate(ext.get("requires", [])):
         E.oblige("ext-pre", E.spec(r, extra=env), f"{name}/{j}")
+    saved_entry_ext = None
+    if ext.get("modifies_args"):
+        # the external may change the listed argument objects: snapshot (for old(..) in its ensures), frame check, havoc
+        pre = Snapshot(st)
+        pre.vars = dict(st.vars, **env)
+        mods = [args[k_].z for k_ in ext["modifies_args"] if k_ < len(args)]
+        for m_ in mods:
+            E.wframe(m_, f"external {name}")
+        nentry_ = st.nref
+        st.nref = fresh("nref")
+        st.pc.append(st.nref >= nentry_)
+        st.heap.havoc(nentry_, mods, st.nref)
+        E.drain()
+        saved_entry_ext = st.labels.get("entry")
+        st.labels["entry"] = pre
     outcomes = ext.get("outcomes")
     if outcomes:
         k = E.choose([z3.BoolVal(True)] * len(outcomes), check=False)
@@ -1418,8 +1471,12 @@ def external_call(E, name, ext, e, recv=None, args=None, kwargs=None):
         emit(E, ext["event"], [res] + ev_args)
     env2 = dict(env)
     env2["result"] = res
-    for r in oc.get("ensures", []):
-        st.pc.append(E.spec(r, extra=env2))
+    try:
+        for r in oc.get("ensures", []):
+            st.pc.append(E.spec(r, extra=env2))
+    finally:
+        if saved_entry_ext is not None:
+            st.labels["entry"] = saved_entry_ext
     if outcomes and oc.get("ensures"):
         E.prune()
     if oc.get("tag"):
@@ -1547,6 +1604,12 @@ def py_builtin(E, name, e):
     if name == "dict":
         if not args and not kwargs:
             return new_dict(E, None, None)
+        if len(args) == 1 and not kwargs and isinstance(E.full_ty(args[0]), tuple) and E.full_ty(args[0])[0] == "dict":
+            src = args[0]
+            kty, vty = dict_types(E, src)
+            r = new_dict(E, kty, vty)
+            dict_update(E, r, src)  # a shallow copy: same keys, same values
+            return r
         raise OutOfSubset("dict(...) with arguments")
     if name == "set":
         if not args:
@@ -1745,6 +1808,8 @@ def container_method(E, recv, name, e):
             E.hwrite("len", I, recv.z, z3.IntVal(0), "dict-clear")
             E.hwrite(dn, z3.ArraySort(ks, B), recv.z, z3.K(ks, z3.BoolVal(False)), "dict-clear")
             return NONE
+        if name == "update" and len(args) == 1 and not kwargs:
+            return dict_update(E, recv, args[0])
         if name == "setdefault":
             has = dict_has(E, recv, args[0])
             if E.branch(has):
@@ -1822,6 +1887,12 @@ def str_method(E, recv, name, args, e):
         return r
     if name == "format":
         return format_uf(E, "fmtm:" + (recv.py if recv.py is not None else "?"), [recv] + list(args))
+    if name == "join" and len(args) == 1:
+        f = z3.Function("str_join", I, I, I)
+        r = V("str", f(recv.z, args[0].z))
+        if not E.st.bound:
+            E.st.pc.append(r.z >= 1)
+        return r
     raise OutOfSubset(f"str.{name}")
 
 
@@ -1852,7 +1923,7 @@ def spec_at(E, e):
     return E.in_snapshot(e.args[0].value, e.args[1])
 
 
-def spec_quant(kind, sort=I):
+def spec_quant(kind, sort=I, vty=None):
     def f(E, e):
         lam = e.args[0]
         st = E.st
@@ -1863,7 +1934,7 @@ def spec_quant(kind, sort=I):
             q = z3.Const(n, R if sort is R or n.startswith("r_") else I)
             qs.append(q)
             saved[n] = st.vars.get(n)
-            st.vars[n] = V("real" if q.sort() == R else "int", q)
+            st.vars[n] = V(vty or ("real" if q.sort() == R else "int"), q)
         st.bound.extend(qs)
         st.side.append([])
         try:
@@ -2038,6 +2109,8 @@ SPEC_FUNCS = {
     "forall": spec_quant("forall"),
     "exists": spec_quant("exists"),
     "forall_real": spec_quant("forall", R),
+    "forall_str": spec_quant("forall", I, "str"),
+    "exists_str": spec_quant("exists", I, "str"),
     "implies": spec_implies,
     "iff": spec_iff,
     "ite": spec_ite,
